@@ -4,9 +4,12 @@
 package wire
 
 import (
+	"bytes"
 	"container/heap"
+	"fmt"
 	"sync"
 	"time"
+	"verifh/fw"
 
 	"github.com/brewlin/net-protocol/pkg/buffer"
 	tcpip "github.com/brewlin/net-protocol/protocol"
@@ -41,23 +44,90 @@ type Link struct {
 	KeepLog  bool
 	ID       tcpip.LinkEndpointID
 	ViewSize int // >0: inbound packets are delivered in views of this size (like fdbased)
+
+	// The link keeps the header views of the last packets it was handed, the way a
+	// queueing link (protocol/link/channel) does, together with a snapshot: a header that
+	// changes after WritePacket returned was reused by the stack while the link still
+	// owned it.
+	held   []heldHeader
+	reused []string
+}
+
+type heldHeader struct {
+	n     int
+	proto tcpip.NetworkProtocolNumber
+	ref   []byte // the stack's memory
+	snap  []byte // what it held when it was handed over
+}
+
+var (
+	linksMu  sync.Mutex
+	allLinks []*Link
+)
+
+// canaryHeaderCompare looks at header memory the stack handed over earlier.
+func (l *Link) canaryHeaderCompare() {
+	keep := l.held[:0]
+	for _, h := range l.held {
+		if !bytes.Equal(h.ref, h.snap) {
+			if len(l.reused) < 8 {
+				l.reused = append(l.reused, fmt.Sprintf("link %s: the header of packet #%d (protocol %#04x, %d header bytes) was overwritten after it had been handed to the link: it was %x, now %x", l.Name, h.n, uint16(h.proto), len(h.snap), h.snap, h.ref))
+			}
+			continue
+		}
+		keep = append(keep, h)
+	}
+	l.held = keep
+	if len(l.held) > 32 {
+		l.held = append(l.held[:0], l.held[len(l.held)-32:]...)
+	}
+}
+
+func init() {
+	fw.PreFinish = append(fw.PreFinish, func(r *fw.Run) {
+		for _, m := range HeaderReuse() {
+			r.Violation(r.ID+"/link/header-overwritten-after-write", m, nil)
+		}
+	})
+}
+
+// HeaderReuse reports headers that changed after they were handed to any link of this process.
+func HeaderReuse() []string {
+	linksMu.Lock()
+	ls := append([]*Link(nil), allLinks...)
+	linksMu.Unlock()
+	var out []string
+	for _, l := range ls {
+		l.mu.Lock()
+		l.canaryHeaderCompare()
+		out = append(out, l.reused...)
+		l.reused = nil
+		l.mu.Unlock()
+	}
+	return out
 }
 
 func NewLink(name string, mtu uint32, addr tcpip.LinkAddress, caps stack.LinkEndpointCapabilities) *Link {
 	l := &Link{Name: name, mtu: mtu, addr: addr, caps: caps, t0: time.Now()}
 	l.ID = stack.RegisterLinkEndpoint(l)
+	linksMu.Lock()
+	if len(allLinks) > 4096 {
+		allLinks = allLinks[2048:]
+	}
+	allLinks = append(allLinks, l)
+	linksMu.Unlock()
 	return l
 }
 
-func (l *Link) MTU() uint32                                   { return l.mtu }
-func (l *Link) SetMTU(m uint32)                               { l.mtu = m }
-func (l *Link) Capabilities() stack.LinkEndpointCapabilities  { return l.caps }
-func (l *Link) MaxHeaderLength() uint16                       { return l.hdrLen }
-func (l *Link) LinkAddress() tcpip.LinkAddress                { return l.addr }
-func (l *Link) Attach(d stack.NetworkDispatcher)              { l.disp = d }
-func (l *Link) IsAttached() bool                              { return l.disp != nil }
-func (l *Link) Since() time.Duration                          { return time.Since(l.t0) }
-func (l *Link) AddTap(f func(f *Frame))                       { l.Taps = append(l.Taps, f) }
+func (l *Link) MTU() uint32                                  { return l.mtu }
+func (l *Link) SetMTU(m uint32)                              { l.mtu = m }
+func (l *Link) Capabilities() stack.LinkEndpointCapabilities { return l.caps }
+func (l *Link) MaxHeaderLength() uint16                      { return l.hdrLen }
+func (l *Link) LinkAddress() tcpip.LinkAddress               { return l.addr }
+func (l *Link) Attach(d stack.NetworkDispatcher)             { l.disp = d }
+func (l *Link) IsAttached() bool                             { return l.disp != nil }
+func (l *Link) Since() time.Duration                         { return time.Since(l.t0) }
+func (l *Link) AddTap(f func(f *Frame))                      { l.Taps = append(l.Taps, f) }
 
 func (l *Link) WritePacket(r *stack.Route, hdr buffer.Prependable, payload buffer.VectorisedView, protocol tcpip.NetworkProtocolNumber) *tcpip.Error {
 	h := hdr.View()
@@ -72,6 +142,10 @@ func (l *Link) WritePacket(r *stack.Route, hdr buffer.Prependable, payload buffe
 	l.mu.Lock()
 	f.N = l.n
 	l.n++
+	l.canaryHeaderCompare()
+	if len(h) > 0 {
+		l.held = append(l.held, heldHeader{f.N, protocol, h, append([]byte(nil), h...)})
+	}
 	if l.KeepLog {
 		l.Log = append(l.Log, f)
 	}
@@ -133,21 +207,23 @@ func (l *Link) Count() int {
 // fault plan asks for it.
 
 type Action struct {
-	Drop  bool
-	Dup   int             // extra copies
-	Delay time.Duration   // extra latency for the original
+	Drop      bool
+	Dup       int             // extra copies
+	Delay     time.Duration   // extra latency for the original
 	DupDelays []time.Duration // extra latency per copy (defaults to Delay)
 }
 
 type item struct {
-	at   time.Time
-	seq  int
-	f    *Frame
+	at  time.Time
+	seq int
+	f   *Frame
 }
 type itemHeap []item
 
-func (h itemHeap) Len() int            { return len(h) }
-func (h itemHeap) Less(i, j int) bool  { return h[i].at.Before(h[j].at) || (h[i].at.Equal(h[j].at) && h[i].seq < h[j].seq) }
+func (h itemHeap) Len() int { return len(h) }
+func (h itemHeap) Less(i, j int) bool {
+	return h[i].at.Before(h[j].at) || (h[i].at.Equal(h[j].at) && h[i].seq < h[j].seq)
+}
 func (h itemHeap) Swap(i, j int)       { h[i], h[j] = h[j], h[i] }
 func (h *itemHeap) Push(x interface{}) { *h = append(*h, x.(item)) }
 func (h *itemHeap) Pop() interface{} {
@@ -165,13 +241,13 @@ type Pipe struct {
 	// OnDeliver is called by the dispatcher goroutine right before delivery.
 	OnDeliver func(f *Frame)
 
-	mu      sync.Mutex
-	q       itemHeap
-	seq     int
-	wake    chan struct{}
-	done    chan struct{}
-	Dropped int
-	Sent    int
+	mu        sync.Mutex
+	q         itemHeap
+	seq       int
+	wake      chan struct{}
+	done      chan struct{}
+	Dropped   int
+	Sent      int
 	Delivered int
 }
 
